@@ -164,9 +164,25 @@ PROBES = [
 ]
 
 
+def replay(ctx, warun):
+    import json
+    r = json.load(open(ctx.replay))["replay"]
+    src = r.get("program")
+    if src is None and "source" in r:
+        src = "package main\n\n%s\n\nfunc main() {\n%s\n}\n" % (r["source"], "\tprintln(f_%s(%s))" % (
+            r["row"], ", ".join(str(v) for v in (r["x"], r["y"]) if v is not None)))
+    if not src.lstrip().startswith("package"):
+        src = "package main\n\n" + src
+    wst, wl, gst, gl = run_both(ctx, warun, src, "replay")
+    print("replay program:\n%s\nWa (%s): %s\nGo (%s): %s" % (src, wst, wl, gst, gl))
+    return 0 if (wst == "ok" and [l.strip() for l in wl] == [l.strip() for l in gl]) else 1
+
+
 def run(ctx):
     tabbin = ctx.build_harness("c01tab")
     warun = ctx.build_harness("warun")
+    if ctx.replay:
+        return replay(ctx, warun)
     # 1. regenerate the emit table from the real emitter
     rows = c01_rows.emit_rows(ctx, tabbin)
     gen_path = os.path.join(vlib.LEAN, "WaVerif", "Gen", "C01Rows.lean")
